@@ -14,17 +14,22 @@ for f in $(git diff --name-only --diff-filter=U); do
       git show :2:known_findings.jsonl > /tmp/kf_ours; git show :3:known_findings.jsonl > /tmp/kf_theirs
       python3 - <<'PY'
 import json
-seen=set(); out=[]
+out=[]; pos={}
 for p in ('/tmp/kf_ours','/tmp/kf_theirs'):
     for l in open(p):
         l=l.rstrip('\n')
         if not l.strip(): continue
-        key=l
+        key=l; st=None
         if not l.startswith('#'):
-            try: key=json.loads(l)['id']
+            try:
+                d=json.loads(l); key=d['id']; st=d.get('status')
             except Exception: pass
-        if key in seen: continue
-        seen.add(key); out.append(l)
+        if key in pos:
+            # same finding on both sides: a 'fixed' entry wins over an 'open' one
+            if st=='fixed' and '"status": "fixed"' not in out[pos[key]] and '"status":"fixed"' not in out[pos[key]]:
+                out[pos[key]]=l
+            continue
+        pos[key]=len(out); out.append(l)
 open('/verif/known_findings.jsonl','w').write('\n'.join(out)+'\n')
 PY
       git add known_findings.jsonl
